@@ -691,6 +691,24 @@ func ruleRomanWords(e *Env, rule string) {
 				return sv, nil
 			}
 		}
+		// the offset form of the same match: (start, end) of each capture; subject[start:end] is the capture again,
+		// end − start its length
+		for _, n := range []string{"(*regexp.Regexp).FindSubmatchIndex", "(*regexp.Regexp).FindStringSubmatchIndex"} {
+			sub := sums["(*regexp.Regexp).FindSubmatch"]
+			sums[n] = func(ev *pred.Evaluator, args []pred.Val) (pred.Val, error) {
+				capsV, err := sub(ev, args)
+				if err != nil {
+					return nil, err
+				}
+				sv := &pred.SliceV{}
+				for _, c := range capsV.(*pred.SliceV).Elems {
+					for _, end := range []bool{false, true} {
+						sv.Elems = append(sv.Elems, &pred.Cell{V: pred.Offset{Cap: c.V, End: end}, Name: "offset"})
+					}
+				}
+				return sv, nil
+			}
+		}
 		mk := func() []pred.Val { return []pred.Val{pred.Sym{Name: "input"}, pred.Sym{Name: "r"}} }
 		leaves, err := extractTreeFull(e.P.SSA, dp, mk, sums, fixed, noAtoms, binDomain, e.globalTables(), nil)
 		if err != nil {
